@@ -125,6 +125,7 @@ type Task struct {
 	Stack   string
 	Faulted bool // an injected fault hit this task
 	Crashed bool // cut off by a crash
+	Zombie  bool // belongs to an instance that lost its lease without noticing: it goes on while a fresh instance works
 	Stalled bool // the clock moved while it was in flight
 	Conflict bool
 	client  *ctrlClient
@@ -140,13 +141,13 @@ func (t *Task) Label() string {
 }
 
 // Clean means no injected fault, crash or natural conflict touched the task.
-func (t *Task) Clean() bool { return !t.Faulted && !t.Crashed && !t.Conflict && t.Panic == nil }
+func (t *Task) Clean() bool { return !t.Faulted && !t.Crashed && !t.Conflict && !t.Zombie && t.Panic == nil }
 
 // CleanButPodPatches: nothing went wrong in the task except, possibly, patches of pods (the canary
 // label being set or removed). The code under test only asks for a prompt retry then; everything
 // else a sync decides and does is independent of it.
 func (t *Task) CleanButPodPatches() bool {
-	if t.Crashed || t.Conflict || t.Panic != nil {
+	if t.Crashed || t.Conflict || t.Zombie || t.Panic != nil {
 		return false
 	}
 	for _, c := range t.Calls {
@@ -323,7 +324,9 @@ var _ record.EventRecorder = nopRecorder{}
 func (s *Sim) buildReconcilers() {
 	s.gen++
 	for _, cl := range s.clients {
-		cl.dead.Store(true)
+		if cl.fixed == nil { // a zombie's client stays usable (see Zombie)
+			cl.dead.Store(true)
+		}
 	}
 	s.clients = map[string]*ctrlClient{}
 	s.recon = map[string]reconcile.Reconciler{}
@@ -760,6 +763,49 @@ func (s *Sim) RunCLI(cmd string, key types.NamespacedName) *Task {
 func (s *Sim) RunCLIWhileParked(cmd string, key types.NamespacedName) *Task {
 	t := s.StartCLI(cmd, key)
 	for i := 0; i < 1000 && !t.Done; i++ {
+		synctest.Wait()
+		var mine *Call
+		for _, c := range s.canonicalPending() {
+			if c.Task == t {
+				mine = c
+				break
+			}
+		}
+		if mine == nil {
+			break
+		}
+		s.grant(mine, "")
+	}
+	synctest.Wait()
+	s.collectFinished()
+	return t
+}
+
+// Zombie: the controller process loses its lease without noticing. The reconciles it has in flight
+// go on against the API, wherever they are parked, while a fresh instance (new reconcilers, empty
+// in-memory state) starts working on the same keys.
+func (s *Sim) Zombie() {
+	s.Stats.Faults["zombie"]++
+	s.logf("zombie: a fresh controller instance takes over, the old one goes on")
+	for _, k := range sortedKeys(s.inflight) {
+		t := s.inflight[k]
+		if t.Ctrl == CtrlCLI || t.Zombie {
+			continue
+		}
+		t.Zombie = true
+		if cl := s.clients[t.Ctrl]; cl != nil {
+			cl.fixed = t // its calls stay attributed to it; written while every task goroutine is parked
+		}
+		delete(s.inflight, k)
+		s.inflight[fmt.Sprintf("zombie#%d", t.ID)] = t
+	}
+	s.buildReconcilers()
+}
+
+// RunTaskWhileParked runs one reconcile to completion while the other in-flight tasks stay parked.
+func (s *Sim) RunTaskWhileParked(ctrl string, key types.NamespacedName) *Task {
+	t := s.StartReconcile(ctrl, key)
+	for i := 0; i < 100000 && !t.Done; i++ {
 		synctest.Wait()
 		var mine *Call
 		for _, c := range s.canonicalPending() {
